@@ -21,21 +21,13 @@ def add(name, harness, **kw):
 
 # ---------------------------------------------------------------- a. coding.h / slice.c / buffer.c
 for n in range(0, 13):
-    add("a.varint-read-N%d" % n, "C18/coding.c", real=["util/slice.c", "util/buffer.c"],
-        defs={"VP_MODE": 0, "VP_N": n}, unwind=max(n, 10) + 2,
-        functions=["ldb_varint32_read", "ldb_varint64_read", "ldb_varint32_slurp", "ldb_varint64_slurp"],
-        desc="varint32/64 read+slurp on arbitrary bytes: safe, terminate, accept/value/consumed == reference, cursor stays inside input",
-        bounds="N=%d arbitrary bytes" % n)
-    add("a.fixed-raw-read-N%d" % n, "C18/coding.c", real=["util/slice.c", "util/buffer.c"],
-        defs={"VP_MODE": 1, "VP_N": n}, unwind=n + 4,
-        functions=["ldb_fixed32_read", "ldb_fixed64_read", "ldb_fixed32_slurp", "ldb_fixed64_slurp", "ldb_raw_read", "ldb_zraw_read"],
-        desc="fixed32/64 read+slurp, raw/zraw read with arbitrary requested length: safe, accept iff enough bytes, value == little-endian reference",
+    add("a.coding-read-N%d" % n, "C18/coding.c", real=["util/slice.c", "util/buffer.c"],
+        defs={"VP_MODE": 9, "VP_N": n}, unwind=max(n, 10) + 4,
+        functions=["ldb_varint32_read", "ldb_varint64_read", "ldb_varint32_slurp", "ldb_varint64_slurp",
+                   "ldb_fixed32_read", "ldb_fixed64_read", "ldb_fixed32_slurp", "ldb_fixed64_slurp", "ldb_raw_read",
+                   "ldb_zraw_read", "ldb_slice_read", "ldb_slice_slurp", "ldb_slice_import", "ldb_buffer_read", "ldb_buffer_set"],
+        desc="varint32/64, fixed32/64, raw/zraw (arbitrary requested length) and length-prefixed slice/buffer readers on arbitrary bytes: safe, terminate, accept/value/consumed == reference, cursor and result slice stay inside the input",
         bounds="N=%d arbitrary bytes, requested raw length 0..N+2" % n)
-    add("a.slice-read-N%d" % n, "C18/coding.c", real=["util/slice.c", "util/buffer.c"],
-        defs={"VP_MODE": 2, "VP_N": n}, unwind=max(n, 5) + 3,
-        functions=["ldb_slice_read", "ldb_slice_slurp", "ldb_slice_import", "ldb_buffer_read", "ldb_buffer_set"],
-        desc="length-prefixed slice readers: safe, accept iff reference accepts, result slice inside the input and == reference, buffer_read copies payload",
-        bounds="N=%d arbitrary bytes" % n)
 
 # ---------------------------------------------------------------- b. write_batch.c
 for n in list(range(0, 21)) + list(range(21, 29)):
@@ -99,7 +91,7 @@ for k, ns in ((1, range(2, 33)), (2, range(4, 13))):
             bounds="record = N=%d arbitrary bytes holding <= %d complete VersionEdit records" % (n, k))
 
 # ---------------------------------------------------------------- d. table/format.c handle + footer
-for n in range(0, 23):
+for n in range(0, 21):
     add("d.handle-import-N%d" % n, "C18/format.c", real=["table/format.c", "util/slice.c"],
         defs={"VP_MODE": 0, "VP_N": n}, unwind=max(n, 10) + 2,
         functions=["ldb_handle_import", "ldb_handle_read", "ldb_varint64_read"],
